@@ -170,6 +170,12 @@ func ReadSome(fd int, max int) []byte {
 	return out
 }
 
+// NoLinger arranges for a later close of fd to send an RST instead of going through TIME_WAIT (thousands of
+// short-lived loopback connections per minute would otherwise exhaust the ephemeral ports).
+func NoLinger(fd int) {
+	_ = syscall.SetsockoptLinger(fd, syscall.SOL_SOCKET, syscall.SO_LINGER, &syscall.Linger{Onoff: 1, Linger: 0})
+}
+
 // Reset closes fd with SO_LINGER 0 so that the peer sees an RST.
 func Reset(fd int) {
 	_ = syscall.SetsockoptLinger(fd, syscall.SOL_SOCKET, syscall.SO_LINGER, &syscall.Linger{Onoff: 1, Linger: 0})
